@@ -36,4 +36,5 @@ def wf_containers(self: Ref['mqtt.client.pubsubs.MQTTProtocol']) -> bool:
 
 @spec
 def wf_proto(self: Ref['mqtt.client.pubsubs.MQTTProtocol']) -> bool:
-    return wf_base(self) and wf_containers(self) and (is_real(self._bandwith) or is_int(self._bandwith)) and (is_real(self._factor) or is_int(self._factor))
+    return (wf_base(self) and wf_containers(self) and is_num(self._bandwith) and num(self._bandwith) > 0
+            and is_num(self._factor) and num(self._factor) > 0)
